@@ -40,11 +40,70 @@ type Sched struct {
 	midOps      []bool
 	commitPhase []bool
 	Gated       int
+	// Strict: schedule entries name participants; an entry whose participant cannot run (finished, not yet
+	// parked) is skipped instead of being mapped onto the remaining ones. Lets a generator write directed
+	// schedules ("V starts its commit, then B runs to completion, then V continues, then C ...").
+	Strict bool
+	// Directed: a list of segments "run participant P until it is about to make a backend call whose name contains
+	// Until (or for N calls, or to completion)"; replaces schedule while segments remain. A segment whose participant
+	// is finished, or is spinning on a refused lock while somebody calm can run, is dropped.
+	Directed []Seg
+	segIdx   int
+	segSteps int
+	pending  []string
+	// Timeline is the execution order of the backend calls (who, which call), recorded when the token is granted.
+	Timeline []Step
+}
+
+// Seg is one segment of a directed schedule.
+type Seg struct {
+	P     int
+	Until string // stop before a call whose name contains this ("" = no marker)
+	N     int    // stop after N calls (0 = no bound)
+}
+
+func (g Seg) String() string {
+	switch {
+	case g.Until != "" && g.N > 0:
+		return fmt.Sprintf("p%d->%s|%d", g.P, g.Until, g.N)
+	case g.Until != "":
+		return fmt.Sprintf("p%d->%s", g.P, g.Until)
+	case g.N > 0:
+		return fmt.Sprintf("p%dx%d", g.P, g.N)
+	}
+	return fmt.Sprintf("p%d->end", g.P)
+}
+
+// Step is one executed backend call.
+type Step struct {
+	P    int
+	Site string
+}
+
+// OthersMutatedRegistryDuringLastMerge reports whether, after participant id's last refetch-and-merge pass
+// began (its last StoreRepository.GetWithTTL), another participant executed a registry write: the pass then
+// navigated a mixture of old and new nodes (the recorded 'inconsistent snapshot' finding).
+func (s *Sched) OthersMutatedRegistryDuringLastMerge(id int) bool {
+	start := -1
+	for i, st := range s.Timeline {
+		if st.P == id && strings.Contains(st.Site, "StoreRepository.GetWithTTL") {
+			start = i
+		}
+	}
+	if start < 0 {
+		return false
+	}
+	for _, st := range s.Timeline[start:] {
+		if st.P != id && strings.Contains(st.Site, "Registry.") && !strings.Contains(st.Site, "Registry.Get") {
+			return true
+		}
+	}
+	return false
 }
 
 // NewSched creates a scheduler for n participants.
 func NewSched(n int, schedule []int, budget time.Duration) *Sched {
-	s := &Sched{n: n, current: -1, done: make([]bool, n), parked: make([]bool, n), schedule: schedule, spins: make([]int, n), midOps: make([]bool, n), commitPhase: make([]bool, n)}
+	s := &Sched{n: n, current: -1, done: make([]bool, n), parked: make([]bool, n), schedule: schedule, spins: make([]int, n), midOps: make([]bool, n), commitPhase: make([]bool, n), pending: make([]string, n)}
 	s.cond = sync.NewCond(&s.mu)
 	s.deadline = time.Now().Add(budget)
 	return s
@@ -71,7 +130,36 @@ func (s *Sched) pick(self int) int {
 	if len(calm) > 0 {
 		cands = calm
 	}
-	if s.pos < len(s.schedule) {
+	for s.segIdx < len(s.Directed) {
+		g := s.Directed[s.segIdx]
+		ok := false
+		for _, i := range cands {
+			if i == g.P {
+				ok = true
+			}
+		}
+		atMarker := g.Until != "" && s.segSteps > 0 && ok && strings.Contains(s.pending[g.P], g.Until)
+		if !ok || atMarker || (g.N > 0 && s.segSteps >= g.N) {
+			s.segIdx++
+			s.segSteps = 0
+			continue
+		}
+		s.segSteps++
+		return g.P
+	}
+	if s.Strict {
+		for s.pos < len(s.schedule) {
+			want := s.schedule[s.pos]
+			s.pos++
+			for _, i := range cands {
+				// a participant spinning on a refused lock while somebody calm can run is skipped (its entry is
+				// consumed): "run X until it is finished or blocked"
+				if i == want {
+					return i
+				}
+			}
+		}
+	} else if s.pos < len(s.schedule) {
 		c := cands[s.schedule[s.pos]%len(cands)]
 		s.pos++
 		return c
@@ -94,6 +182,7 @@ func (s *Sched) yield(id int, what string) {
 	defer s.mu.Unlock()
 	s.Yields++
 	s.parked[id] = true
+	s.pending[id] = what
 	if s.current == id || s.current == -1 {
 		next := s.pick(id)
 		if next != s.current && s.current != -1 {
@@ -115,6 +204,9 @@ func (s *Sched) yield(id int, what string) {
 		s.waitWithTimeout()
 	}
 	s.parked[id] = false
+	if len(s.Timeline) < 50000 {
+		s.Timeline = append(s.Timeline, Step{id, what})
+	}
 }
 
 func (s *Sched) waitWithTimeout() {
@@ -387,6 +479,10 @@ type ConcOpts struct {
 	Create bool
 	// GateCommits: see Sched.GateCommits.
 	GateCommits bool
+	// Strict: see Sched.Strict.
+	Strict bool
+	// Directed: see Sched.Directed.
+	Directed []Seg
 	// OnTxn is called with every participant's transaction before Begin (extra hooks).
 	OnTxn func(i int, t *Txn)
 }
@@ -398,6 +494,8 @@ func (e *Env) RunConcurrent(stores []StoreOpts, progs []TxnProg, schedule []int,
 	}
 	res := make([]CResult, len(progs))
 	s := NewSched(len(progs), schedule, co.Budget)
+	s.Strict = co.Strict
+	s.Directed = co.Directed
 	s.GateCommits = co.GateCommits
 	body := func(i int) {
 		t0 := time.Now()
@@ -469,6 +567,9 @@ func (e *Env) RunConcurrent(stores []StoreOpts, progs []TxnProg, schedule []int,
 		}
 		if !co.FreeRunning {
 			s.EnterCommit(i)
+			if len(co.Directed) > 0 {
+				s.yield(i, "Commit.begin")
+			}
 		}
 		if progs[i].End == "rollback" {
 			if err := t.Tx.Rollback(Ctx); err != nil {
